@@ -195,3 +195,31 @@ for name in FRAMES:
            bounds='valid %s frame (%d bytes) with one byte replaced by every value at every position: the processor returns or raises an Exception '
                   'subclass, tags change only through the (intact) write it carries, locks released, next request served' % (name, len(FRAMES[name][0])),
            outside='two simultaneous substitutions (thorough: mutate2_*); insertions/deletions other than via length fields')
+
+
+# ---- inconsistent length / count / offset fields inside a write request -------------------------------------------------------------------------
+def do_write_fields(frag, idx, elements, offset, nvals, v):
+    """a Write Tag [Fragmented] whose element count, byte offset and number of carried values are arbitrary (mutually inconsistent)"""
+    a0 = [11, 12, 13, 14]
+    segs = [{'symbolic': 'A'}, {'element': idx}]
+    vals = [v, v + 1, v + 2, v + 3, v + 4, v + 5][:nvals]
+    if frag:
+        req = ref.write_frag(segs, 0xc3, vals, elements, 2 * offset)
+    else:
+        req = ref.write_tag(segs, 0xc3, vals, elements=elements)
+        offset = 0
+    beg = idx + offset
+    wellformed = nvals >= 1 and elements >= 1 and idx + elements <= 4 and beg + nvals <= idx + elements
+    expect = a0[:beg] + vals + a0[beg + nvals:] if wellformed else None
+    frame = ref.encap(0x6f, 5, 0, [4] * 8, 0, ref.send_rr_data([(0, []), (0xb2, ref.unconnected_send(req, [{'port': 1, 'link': 0}]))]))
+    return attack(frame, expect) and (not wellformed or list(sim.attribute('A').value) == expect)
+
+
+for frag in (False, True):
+    define(globals(), 'C08', 'write_%s_inconsistent_fields' % ('frag' if frag else 'tag'), ['idx', 'elements', 'offset', 'nvals', 'v'],
+           "return do_write_fields(%r, idx, elements, offset, nvals, v)" % frag,
+           ['0 <= idx <= 5 and 0 <= elements <= 6 and 0 <= offset <= 5 and 0 <= nvals <= 6 and -100 <= v <= 100'], timeout=3000, path_timeout=300, drives=FULL,
+           symbolic=['idx: start element 0..5', 'elements: declared element count 0..6', 'offset: declared element offset 0..5', 'nvals: number of values actually carried 0..6', 'v'],
+           bounds='reference-encoded Write Tag%s to the INT[4] tag with EVERY combination of start index, declared count, declared offset and carried values: the tag '
+                  'changes only if the request is a complete well-formed write (then exactly the addressed elements), its length never changes, no other tag '
+                  'changes, next request served' % (' Fragmented' if frag else ''), outside='')
